@@ -22,24 +22,24 @@ CPIOF = {"pathname", "symlink", "perm", "filetype", "uid", "gid", "size", "mtime
 # name kinds: "any" (arbitrary depth/length), "ustar" (<=100 or splittable 155/100), "short99", "base" (no '/'),
 # "base15", "tree" (explicit parent directories first)
 FORMATS = {
-    "ustar":   dict(codes={0x30001}, types=[REG, DIR, LNK, CHR, BLK, FIFO], hard=True, names="ustar", linkmax=100, idmax=0o777777,
+    "ustar":   dict(pads_short_body=True, codes={0x30001}, types=[REG, DIR, LNK, CHR, BLK, FIFO], hard=True, names="ustar", linkmax=100, idmax=0o777777,
                     tmax=2**33 - 1, ugmax=32, fields=TARF, order="seq", devmax=0o777777),
-    "v7tar":   dict(codes={0x30000}, types=[REG, DIR, LNK], hard=True, names="short99", linkmax=99, idmax=0o777777, tmax=2**33 - 1,
+    "v7tar":   dict(pads_short_body=True, codes={0x30000}, types=[REG, DIR, LNK], hard=True, names="short99", linkmax=99, idmax=0o777777, tmax=2**33 - 1,
                     ugmax=0, fields=TARF - {"uname", "gname", "rdev"}, order="seq"),
-    "gnutar":  dict(codes={0x30004}, types=[REG, DIR, LNK, CHR, BLK, FIFO], hard=True, names="any", linkmax=400, idmax=2**56 - 1,
+    "gnutar":  dict(pads_short_body=True, codes={0x30004}, types=[REG, DIR, LNK, CHR, BLK, FIFO], hard=True, names="any", linkmax=400, idmax=2**56 - 1,
                     tmax=2**33 - 1, ugmax=32, fields=TARF, order="seq", devmax=0o777777),
-    "pax":     dict(codes={0x30001, 0x30002}, types=[REG, DIR, LNK, CHR, BLK, FIFO], hard=True, names="any", linkmax=400,
+    "pax":     dict(pads_short_body=True, codes={0x30001, 0x30002}, types=[REG, DIR, LNK, CHR, BLK, FIFO], hard=True, names="any", linkmax=400,
                     idmax=2**53, tmax=2**40, ugmax=200, fields=TARF | {"mtime_ns", "atime", "ctime", "xattrs"}, order="seq",
                     devmax=0o777777, utf8=True),
-    "paxr":    dict(codes={0x30001, 0x30002}, types=[REG, DIR, LNK, CHR, BLK, FIFO], hard=True, names="any", linkmax=400,
+    "paxr":    dict(pads_short_body=True, codes={0x30001, 0x30002}, types=[REG, DIR, LNK, CHR, BLK, FIFO], hard=True, names="any", linkmax=400,
                     idmax=2**53, tmax=2**40, ugmax=200, fields=TARF | {"xattrs", "mtime_ns_opt"}, order="seq", devmax=0o777777, utf8=True),
-    "odc":     dict(codes={0x10001}, types=[REG, DIR, LNK, CHR, BLK, FIFO, SOCK], names="any", linkmax=400, idmax=0o777777,
+    "odc":     dict(pads_short_body=True, codes={0x10001}, types=[REG, DIR, LNK, CHR, BLK, FIFO, SOCK], names="any", linkmax=400, idmax=0o777777,
                     tmax=2**33 - 1, fields=CPIOF, order="seq", devall=0o777777, nlinkmax=0o777777),
-    "newc":    dict(codes={0x10004}, types=[REG, DIR, LNK, CHR, BLK, FIFO, SOCK], names="any", linkmax=400, idmax=2**32 - 1,
+    "newc":    dict(pads_short_body=True, codes={0x10004}, types=[REG, DIR, LNK, CHR, BLK, FIFO, SOCK], names="any", linkmax=400, idmax=2**32 - 1,
                     tmax=2**32 - 1, fields=CPIOF | {"ino"}, order="seq", devmax=2**32 - 1, nlinkmax=2**32 - 1, inomax=2**32 - 1),
-    "bin":     dict(codes={0x10002}, types=[REG, DIR, LNK, CHR, BLK], names="any", linkmax=400, idmax=65535, tmax=2**32 - 1,
+    "bin":     dict(pads_short_body=True, codes={0x10002}, types=[REG, DIR, LNK, CHR, BLK], names="any", linkmax=400, idmax=65535, tmax=2**32 - 1,
                     fields=CPIOF, order="seq", devall=65535, nlinkmax=65535),
-    "pwb":     dict(codes={0x10002, 0x10007}, types=[REG, DIR, CHR, BLK], names="any", idmax=65535, tmax=2**32 - 1,
+    "pwb":     dict(pads_short_body=True, codes={0x10002, 0x10007}, types=[REG, DIR, CHR, BLK], names="any", idmax=65535, tmax=2**32 - 1,
                     fields=CPIOF - {"symlink"}, order="seq", devall=65535, nlinkmax=65535),
     "arbsd":   dict(codes={0x70000, 0x70002}, types=[REG], names="base", idmax=999999, tmax=10**12 - 1,
                     fields={"pathname", "perm", "uid", "gid", "size", "mtime"}, order="seq"),
@@ -186,6 +186,10 @@ def gen_sequence(r, fmt, spec):
         if ft == REG:
             size = r.choice(BODY_SIZES)
             body = bytes(r.randrange(256) for _ in range(size)) if r.random() < 0.7 else bytes([65 + k]) * size
+            if spec.get("single") and body:
+                body = b"R" + body[1:]       # a raw stream that starts with zeros is, correctly, taken for a tar end mark
+        if size > 1 and r.random() < 0.12 and spec.get("pads_short_body"):
+            body = body[:r.randrange(0, size)]      # fewer bytes than declared: the writer pads with zeros
         d["size"], d["body"] = size, body
         d["chunks"] = r.choice([(), (), (1,), (3, 7), (512,), (511, 2), (100, 0), (4096,)])
         if ft == LNK:
@@ -328,6 +332,10 @@ def check_round1(meta, iv):
         return ("C02:%s:write-aborted" % fmt, "%s: only %d of %d entries were written: %s" % (tag, len(w[1]), len(es), w[1][-1:]))
     for k, (rec, d) in enumerate(zip(w[1], es)):
         hs, err, dsum, fs = rec[0], rec[1].decode("latin1"), rec[4], rec[5]
+        if hs == OK and dsum >= 0 and fs != OK and len(d["body"]) < d["size"]:
+            return ("C02:%s:short-body" % fmt,
+                    "%s: entry #%d: %d bytes written for a declared size of %d: archive_write_finish_entry returns %d instead of padding (%s)" %
+                    (tag, k, len(d["body"]), d["size"], fs, err[:60]))
         if hs != OK or fs != OK or dsum < 0:
             return ("C02:%s:refused-representable" % fmt,
                     "%s: entry #%d (type %o, %d-byte name, uid %d, mtime %s) inside the format's range was answered with header=%d "
